@@ -1,6 +1,525 @@
-//! C05 — not built yet.
-use crate::report::{Ctx, Reporter};
+//! C05 — HTTP/1 per-connection memory is bounded by configuration, not by the peer.
+//!
+//! "Maximum over all executions" restated as (i) ceilings derived from the documented constants
+//! and the configuration, with 2× slack, and (ii) scale invariance: what a connection retains at
+//! offered load 8·N exceeds what it retains at load N by at most one segment / a small ε.
+//!
+//! Obs: black-box byte accounting at the socket and at the application boundary (input is produced
+//! lazily, one segment at a time, only while the server is still taking bytes, so the harness holds
+//! O(1)), plus the live-heap high-water mark of a counting global allocator inside the window.
 
-pub fn run(_ctx: &Ctx, rep: &mut Reporter) {
-    rep.inconclusive("C05 monitor not built");
+use serde_json::{json, Value};
+
+use crate::{
+    refmodel::h1_resp,
+    report::{guard, panic_site, Ctx, Reporter},
+    util::Rng,
+    world::{
+        alloc,
+        conn::{open_h1, ConnCfg},
+        exec::{breathe, run_virtual, Driven},
+        svc::{open_gate, world, BStep, BodyKind, Prog, ReadMode},
+    },
+};
+
+const READ_BUF_LIMIT: usize = 131_072;
+const PAYLOAD_LIMIT: usize = 32_768;
+const SEG: usize = 16_384;
+
+#[derive(Clone, Debug)]
+pub struct Case {
+    /// "head-line" | "head-many" | "request-line" | "body" | "pipeline" | "response"
+    pub scenario: String,
+    /// total bytes (or, for "pipeline", requests; for "response", body bytes) offered
+    pub load: usize,
+    /// consumer: "hold" never reads, "slow" one chunk per step, "gated-handler" (payload alive, unread)
+    pub consumer: String,
+    pub chunked: bool,
+    pub write_buf: Option<usize>,
+    pub chunk: usize,
+    /// "zero" | "trickle"
+    pub credit: String,
+}
+
+impl Case {
+    fn to_json(&self) -> Value {
+        json!({"scenario": self.scenario, "load": self.load, "consumer": self.consumer, "chunked": self.chunked, "write_buf": self.write_buf, "chunk": self.chunk, "credit": self.credit})
+    }
+    fn from_json(v: &Value) -> Case {
+        Case {
+            scenario: v["scenario"].as_str().unwrap_or("body").to_string(),
+            load: v["load"].as_u64().unwrap_or(1 << 20) as usize,
+            consumer: v["consumer"].as_str().unwrap_or("hold").to_string(),
+            chunked: v["chunked"].as_bool().unwrap_or(false),
+            write_buf: v["write_buf"].as_u64().map(|x| x as usize),
+            chunk: v["chunk"].as_u64().unwrap_or(1000) as usize,
+            credit: v["credit"].as_str().unwrap_or("zero").to_string(),
+        }
+    }
+    fn sig(&self) -> String {
+        format!("{}|{}|chunked={}|wb={:?}|chunk={}|{}", self.scenario, self.consumer, self.chunked, self.write_buf, self.chunk, self.credit)
+    }
+}
+
+#[derive(Clone, Debug, Default)]
+pub struct Meas {
+    pub offered: usize,
+    pub taken: usize,
+    pub head_len: usize,
+    pub delivered: usize,
+    /// max over steps of (taken − head − delivered)
+    pub max_read_ahead: usize,
+    pub pulled: usize,
+    pub written: usize,
+    /// max over steps of (pulled − written)
+    pub max_write_ahead: usize,
+    pub heap_peak_delta: usize,
+    pub heap_live_delta_end: isize,
+    pub handlers: usize,
+    pub statuses: Vec<u16>,
+    pub done: bool,
+    pub steps: usize,
+    pub livelock: bool,
+    pub server_stopped_reading: bool,
+}
+
+/// Produce the next input segment lazily.
+struct Source {
+    scenario: String,
+    chunked: bool,
+    sent: usize,
+    load: usize,
+    head: Vec<u8>,
+    k: usize,
+}
+
+impl Source {
+    fn new(c: &Case) -> Source {
+        let head = match c.scenario.as_str() {
+            "head-line" => b"GET /x HTTP/1.1\r\nHost: t\r\nX-Endless: ".to_vec(),
+            "head-many" => b"GET /x HTTP/1.1\r\nHost: t\r\n".to_vec(),
+            "request-line" => b"GET /".to_vec(),
+            "body" => {
+                if c.chunked {
+                    b"POST /x HTTP/1.1\r\nHost: t\r\nTransfer-Encoding: chunked\r\n\r\n".to_vec()
+                } else {
+                    format!("POST /x HTTP/1.1\r\nHost: t\r\nContent-Length: {}\r\n\r\n", c.load.max(1) * 4).into_bytes()
+                }
+            }
+            "response" => b"GET /x HTTP/1.1\r\nHost: t\r\n\r\n".to_vec(),
+            _ => vec![],
+        };
+        Source { scenario: c.scenario.clone(), chunked: c.chunked, sent: 0, load: c.load, head, k: 0 }
+    }
+    fn next(&mut self) -> Option<Vec<u8>> {
+        if self.sent == 0 && !self.head.is_empty() {
+            self.sent = self.head.len();
+            return Some(self.head.clone());
+        }
+        match self.scenario.as_str() {
+            "response" => None,
+            "pipeline" => {
+                if self.k >= self.load {
+                    return None;
+                }
+                let mut v = Vec::with_capacity(SEG);
+                while v.len() + 40 < SEG && self.k < self.load {
+                    v.extend_from_slice(format!("GET /p{} HTTP/1.1\r\nHost: t\r\n\r\n", self.k).as_bytes());
+                    self.k += 1;
+                }
+                self.sent += v.len();
+                Some(v)
+            }
+            _ => {
+                if self.sent >= self.load + self.head.len() {
+                    return None;
+                }
+                let v = match self.scenario.as_str() {
+                    "head-many" => {
+                        let mut v = Vec::with_capacity(SEG);
+                        while v.len() + 30 < SEG {
+                            v.extend_from_slice(format!("X-H{}: value-{}\r\n", self.k, self.k).as_bytes());
+                            self.k += 1;
+                        }
+                        v
+                    }
+                    "body" if self.chunked => {
+                        let mut v = format!("{:x}\r\n", SEG - 8).into_bytes();
+                        v.extend(std::iter::repeat_n(b'b', SEG - 8));
+                        v.extend_from_slice(b"\r\n");
+                        v
+                    }
+                    _ => vec![b'a'; SEG],
+                };
+                self.sent += v.len();
+                Some(v)
+            }
+        }
+    }
+}
+
+pub fn measure(c: &Case) -> Meas {
+    let c = c.clone();
+    run_virtual(async move {
+        let mut cfg = ConnCfg::persistent();
+        cfg.write_buf = c.write_buf;
+        let mut prog = Prog::default();
+        match c.scenario.as_str() {
+            "body" => {
+                prog.read = match c.consumer.as_str() {
+                    "hold" => ReadMode::Hold,
+                    "slow" => ReadMode::All,
+                    _ => ReadMode::Ignore,
+                };
+                if c.consumer == "slow" {
+                    prog.read_gate = Some(1);
+                }
+                // the handler never answers inside the window: the payload stays alive
+                prog.post_gate = Some(0);
+                if c.consumer == "gated-handler" {
+                    prog.pre_gate = Some(0);
+                }
+            }
+            "pipeline" => {
+                prog.post_gate = Some(0);
+            }
+            "response" => {
+                prog.kind = BodyKind::BodyStream;
+                prog.steps = vec![BStep::Gen { len: c.chunk, times: c.load / c.chunk.max(1) + 1 }];
+            }
+            _ => {}
+        }
+        let w = world(vec![prog], 2);
+        w.borrow_mut().record_bodies = false;
+        let (mut d, io) = open_h1(&cfg, w.clone()).await;
+        if c.scenario == "response" {
+            io.set_credit(0);
+        }
+        let mut m = Meas::default();
+        let mut src = Source::new(&c);
+        m.head_len = src.head.len();
+        // settle helper
+        async fn quiet(d: &mut Driven<crate::world::conn::ConnResult>, livelock: &mut bool) {
+            let mut n = 0;
+            loop {
+                breathe().await;
+                if d.done() || !d.poll_if_woken() {
+                    return;
+                }
+                n += 1;
+                // Self-wake spinning (e.g. a full read buffer behind a pending handler) is not a
+                // memory question: the step ends after a bounded number of polls and is counted.
+                if n > 2_000 {
+                    *livelock = true;
+                    return;
+                }
+            }
+        }
+        quiet(&mut d, &mut m.livelock).await;
+        let base_live = alloc::reset_peak();
+        let mut idle_steps = 0;
+        let max_steps = 4000;
+        loop {
+            m.steps += 1;
+            if m.steps > max_steps || d.done() {
+                break;
+            }
+            // offer the next segment only when the server has taken everything offered so far
+            let mut offered_now = false;
+            if io.pending_in() == 0 {
+                if let Some(seg) = src.next() {
+                    m.offered += seg.len();
+                    io.push(&seg);
+                    offered_now = true;
+                }
+            }
+            // environment-side progress that does not depend on the server
+            if c.scenario == "body" && c.consumer == "slow" {
+                open_gate(&w, 1, 1);
+            }
+            if c.scenario == "response" && c.credit == "trickle" {
+                io.grant(97);
+            }
+            let before = (io.bytes_read(), io.out_len());
+            quiet(&mut d, &mut m.livelock).await;
+            let after = (io.bytes_read(), io.out_len());
+            m.taken = io.bytes_read() as usize;
+            m.written = io.out_len();
+            {
+                let wd = w.borrow();
+                m.delivered = wd.body_bytes_delivered as usize;
+                m.pulled = wd.resp_bytes_pulled as usize;
+                m.handlers = wd.reqs.len();
+            }
+            if c.scenario == "body" {
+                m.max_read_ahead = m.max_read_ahead.max(m.taken.saturating_sub(m.head_len).saturating_sub(m.delivered));
+            } else {
+                m.max_read_ahead = m.max_read_ahead.max(m.taken);
+            }
+            m.max_write_ahead = m.max_write_ahead.max(m.pulled.saturating_sub(m.written));
+            if before == after && !offered_now {
+                idle_steps += 1;
+            } else {
+                idle_steps = 0;
+            }
+            let exhausted = io.pending_in() == 0 && src.scenario != "response" && src.sent >= src.load + src.head.len() && src.scenario != "pipeline";
+            let exhausted = exhausted || (src.scenario == "pipeline" && src.k >= src.load && io.pending_in() == 0);
+            if c.scenario == "response" {
+                if c.credit == "zero" && idle_steps >= 3 {
+                    break;
+                }
+                if c.credit == "trickle" && m.steps >= 400 {
+                    break;
+                }
+            } else if idle_steps >= 3 {
+                // the server has stopped taking bytes although more are on offer
+                m.server_stopped_reading = io.pending_in() > 0;
+                break;
+            } else if exhausted && idle_steps >= 2 {
+                break;
+            }
+        }
+        m.heap_peak_delta = alloc::peak().saturating_sub(base_live);
+        m.heap_live_delta_end = alloc::live() as isize - base_live as isize;
+        m.done = d.done();
+        let out = io.out();
+        let rp = h1_resp::parse_responses(&out, &|_| Some("GET".into()), d.done());
+        m.statuses = rp.resps.iter().map(|r| r.status).collect();
+        // tear down quietly
+        d.abandon();
+        m
+    })
+}
+
+struct Verdict {
+    class: &'static str,
+    sig: String,
+    detail: String,
+}
+
+fn judge(c: &Case, m: &Meas, small: Option<&Meas>) -> Vec<Verdict> {
+    let mut v = vec![];
+    // scale invariance compares two *saturated* runs: the smaller load must already have made
+    // the server stop taking bytes (otherwise it simply was not offered enough)
+    let small = small.filter(|s| c.scenario == "response" || s.server_stopped_reading);
+    let sig = format!("{} {}", c.scenario, c.consumer);
+    match c.scenario.as_str() {
+        "head-line" | "head-many" | "request-line" => {
+            // unparsed input is limited: refused, and the server stops taking bytes
+            let ceiling = 2 * READ_BUF_LIMIT + 2 * SEG;
+            if m.taken > ceiling {
+                v.push(Verdict { class: "unparsed-input-unbounded", sig: sig.clone(), detail: format!("the server took {} bytes of a request head that never completes (offered {}), ceiling {}", m.taken, m.offered, ceiling) });
+            }
+            let refused = m.statuses.iter().any(|s| *s == 431 || (*s == 400 && c.scenario != "head-line"));
+            if m.offered > ceiling && !refused {
+                v.push(Verdict { class: "oversized-head-not-refused", sig: sig.clone(), detail: format!("{} bytes of head offered, {} taken, responses {:?} (expected 431{})", m.offered, m.taken, m.statuses, if c.scenario == "head-line" { "" } else { " or 400" }) });
+            }
+            if m.offered > ceiling && !m.done {
+                v.push(Verdict { class: "oversized-head-connection-kept", sig: sig.clone(), detail: format!("connection still open after refusing the head (responses {:?})", m.statuses) });
+            }
+            if m.handlers > 0 {
+                v.push(Verdict { class: "handler-ran-on-incomplete-head", sig: sig.clone(), detail: "a handler ran although the head never completed".into() });
+            }
+        }
+        "body" => {
+            let ceiling = 2 * (READ_BUF_LIMIT + PAYLOAD_LIMIT) + 2 * SEG;
+            if m.max_read_ahead > ceiling {
+                v.push(Verdict {
+                    class: "request-body-read-ahead-unbounded",
+                    sig: sig.clone(),
+                    detail: format!("{} body bytes were taken from the socket ahead of the handler (delivered {}, offered {}), ceiling {}", m.max_read_ahead, m.delivered, m.offered, ceiling),
+                });
+            }
+            if let Some(s) = small {
+                if m.max_read_ahead > s.max_read_ahead + 2 * SEG + PAYLOAD_LIMIT {
+                    v.push(Verdict {
+                        class: "request-body-read-ahead-grows-with-load",
+                        sig: sig.clone(),
+                        detail: format!("read-ahead {} at offered load {} vs {} at load {}", m.max_read_ahead, m.offered, s.max_read_ahead, s.offered),
+                    });
+                }
+            }
+        }
+        "pipeline" => {
+            let ceiling = 2 * READ_BUF_LIMIT + 2 * SEG;
+            if m.taken > ceiling {
+                v.push(Verdict { class: "pipelined-input-unbounded", sig: sig.clone(), detail: format!("{} bytes of pipelined requests taken while the first handler is pending (offered {}), ceiling {}", m.taken, m.offered, ceiling) });
+            }
+            if m.handlers > 1 {
+                v.push(Verdict { class: "pipelined-dispatch-while-pending", sig: sig.clone(), detail: format!("{} handlers ran while the first is pending", m.handlers) });
+            }
+            if let Some(s) = small {
+                if m.taken > s.taken + 2 * SEG {
+                    v.push(Verdict { class: "pipelined-input-grows-with-load", sig: sig.clone(), detail: format!("{} bytes taken at {} requests offered vs {} at {}", m.taken, c.load, s.taken, s.offered) });
+                }
+            }
+        }
+        "response" => {
+            let wb = c.write_buf.unwrap_or(32_768);
+            // configured write buffer + one body chunk + head and chunk framing, 2x slack
+            let ceiling = 2 * (wb + c.chunk) + 4096;
+            if m.max_write_ahead > ceiling {
+                v.push(Verdict {
+                    class: "response-write-ahead-unbounded",
+                    sig: format!("{sig} {}", c.credit),
+                    detail: format!("{} response-body bytes were pulled from the handler's body ahead of the socket (written {}), write buffer {} + chunk {} => ceiling {}", m.max_write_ahead, m.written, wb, c.chunk, ceiling),
+                });
+            }
+            if let Some(s) = small {
+                if m.max_write_ahead > s.max_write_ahead + c.chunk + 1024 {
+                    v.push(Verdict { class: "response-write-ahead-grows-with-load", sig: format!("{sig} {}", c.credit), detail: format!("write-ahead {} with a {}-byte body vs {} with {}", m.max_write_ahead, c.load, s.max_write_ahead, s.offered) });
+                }
+            }
+        }
+        _ => {}
+    }
+    // heap: generous absolute ceiling plus scale invariance
+    let heap_ceiling = match c.scenario.as_str() {
+        "response" => 4 * (c.write_buf.unwrap_or(32_768) + c.chunk) + (1 << 20),
+        // queued request objects: bounded by what fits the read buffer; each is a few hundred bytes
+        "pipeline" => 24 << 20,
+        _ => 2 << 20,
+    };
+    if m.heap_peak_delta > heap_ceiling {
+        v.push(Verdict { class: "heap-high-water-above-ceiling", sig: sig.clone(), detail: format!("live heap rose by {} bytes inside the window (ceiling {}), offered {}", m.heap_peak_delta, heap_ceiling, m.offered) });
+    }
+    if let Some(s) = small {
+        let eps = match c.scenario.as_str() {
+            "response" => 2 * c.chunk + (256 << 10),
+            _ => 512 << 10,
+        };
+        if m.heap_peak_delta > s.heap_peak_delta + eps {
+            v.push(Verdict {
+                class: "heap-grows-with-offered-load",
+                sig: sig.clone(),
+                detail: format!("heap high-water {} at load {} vs {} at load {} (ε {})", m.heap_peak_delta, c.load, s.heap_peak_delta, s.offered, eps),
+            });
+        }
+    }
+    v
+}
+
+fn eval_pair(c: &Case, rep: &mut Reporter) {
+    rep.eval();
+    // scale invariance: the same scenario at 1/8 of the load
+    let mut small_case = c.clone();
+    small_case.load = (c.load / 8).max(1);
+    let small = match guard(|| measure(&small_case)) {
+        Ok(m) => m,
+        Err(p) => {
+            rep.violation("panic", &panic_site(&p), &format!("panic: {p}"), small_case.to_json());
+            return;
+        }
+    };
+    let big = match guard(|| measure(c)) {
+        Ok(m) => m,
+        Err(p) => {
+            rep.violation("panic", &panic_site(&p), &format!("panic: {p}"), c.to_json());
+            return;
+        }
+    };
+    if std::env::var("AVMON_DEBUG").is_ok() {
+        eprintln!("small {small:?}\nbig   {big:?}");
+    }
+    rep.count("bytes_offered", big.offered as u64);
+    rep.count("bytes_taken_by_server", big.taken as u64);
+    rep.count(&format!("scenario:{}", c.scenario), 1);
+    rep.max(&format!("read_ahead:{}", c.scenario), big.max_read_ahead as u64);
+    rep.max(&format!("write_ahead:{}", c.scenario), big.max_write_ahead as u64);
+    rep.max(&format!("heap_peak_delta:{}", c.scenario), big.heap_peak_delta as u64);
+    if big.livelock {
+        rep.count("runs_with_self_wake_spinning(observed, not judged)", 1);
+    }
+    if big.server_stopped_reading {
+        rep.count("runs_where_server_stopped_reading_with_input_on_offer", 1);
+    }
+    for s in &big.statuses {
+        rep.count(&format!("status:{s}"), 1);
+    }
+    for vd in judge(c, &big, Some(&small)) {
+        rep.violation(vd.class, &vd.sig, &format!("{} | case {}", vd.detail, c.to_json()), c.to_json());
+    }
+    for vd in judge(&small_case, &small, None) {
+        rep.violation(vd.class, &vd.sig, &format!("{} | case {}", vd.detail, small_case.to_json()), small_case.to_json());
+    }
+    rep.sig(&c.sig());
+}
+
+fn grid(thorough: bool) -> Vec<Case> {
+    let mut v = vec![];
+    let base = Case { scenario: String::new(), load: 0, consumer: "hold".into(), chunked: false, write_buf: None, chunk: 1000, credit: "zero".into() };
+    for sc in ["head-line", "head-many", "request-line"] {
+        for load in if thorough { vec![2 << 20, 16 << 20] } else { vec![2 << 20] } {
+            v.push(Case { scenario: sc.into(), load, ..base.clone() });
+        }
+    }
+    for consumer in ["hold", "slow", "gated-handler"] {
+        for chunked in [false, true] {
+            for load in if thorough { vec![2 << 20, 32 << 20] } else { vec![4 << 20] } {
+                v.push(Case { scenario: "body".into(), load, consumer: consumer.into(), chunked, ..base.clone() });
+            }
+        }
+    }
+    for load in if thorough { vec![20_000usize, 200_000] } else { vec![40_000] } {
+        v.push(Case { scenario: "pipeline".into(), load, ..base.clone() });
+    }
+    for wb in [Some(1usize), Some(512), Some(4096), None, Some(1 << 20)] {
+        for chunk in [1usize, 1000, 70_000] {
+            for credit in ["zero", "trickle"] {
+                let total = (wb.unwrap_or(32_768) + chunk) * 16 + (1 << 20);
+                // 1-byte chunks: keep the step count sane
+                let total = if chunk == 1 { total.min(3 << 20) } else { total };
+                v.push(Case { scenario: "response".into(), load: total, write_buf: wb, chunk, credit: credit.into(), ..base.clone() });
+            }
+        }
+    }
+    v
+}
+
+pub fn run(ctx: &Ctx, rep: &mut Reporter) {
+    if let Some(r) = &ctx.replay {
+        eval_pair(&Case::from_json(r), rep);
+        rep.sig("replay-a");
+        rep.sig("replay-b");
+        return;
+    }
+    let g = grid(ctx.thorough());
+    let mut complete = true;
+    for (k, c) in g.iter().enumerate() {
+        if !ctx.mine(k as u64) {
+            continue;
+        }
+        if ctx.out_of_time() {
+            complete = false;
+            break;
+        }
+        eval_pair(c, rep);
+        if k % 16 == 3 {
+            rep.sample("grid-case", c.to_json());
+        }
+    }
+    rep.exhaustive("configuration grid: scenario x consumer x framing x write-buffer size x chunk size x credit mode", complete);
+    rep.max("grid_cases", g.len() as u64);
+    // random variations of sizes around the grid points
+    let n = ctx.share(160, 4000);
+    for k in 0..n {
+        if ctx.out_of_time() {
+            break;
+        }
+        let mut rng = Rng::derive(ctx.seed, 5, k * ctx.nshards + ctx.shard);
+        let mut c = rng.pick(&g).clone();
+        match c.scenario.as_str() {
+            "response" => {
+                c.write_buf = Some(*rng.pick(&[1usize, 7, 100, 512, 3000, 4096, 20_000, 32_768, 100_000]));
+                c.chunk = *rng.pick(&[1usize, 2, 100, 1000, 9000, 33_000, 70_000]);
+                c.load = (c.write_buf.unwrap_or(32_768) + c.chunk) * rng.range(8, 24) + (512 << 10);
+                if c.chunk <= 2 {
+                    c.load = c.load.min(2 << 20);
+                }
+            }
+            "pipeline" => c.load = rng.range(8_000, 60_000),
+            _ => c.load = rng.range(1 << 20, 6 << 20),
+        }
+        eval_pair(&c, rep);
+    }
 }
